@@ -642,3 +642,37 @@ def once_init(f, idx):
                 continue
         return n
     return strip_casts(f, idx)
+
+
+def body_entry(g, f, loop):
+    """the single point at which an iteration of `loop` enters its body (for `while (a && b)` the true edge of `a` stays inside
+    the condition: the body is entered where the last operand came out true); None when it cannot be determined"""
+    starts = iteration_starts(g, f, loop)
+    if len(starts) > 1 and loop.get('cnd') is not None:
+        body = set(f.subtree(loop['body']))
+        cset = set(f.subtree(loop['cnd'])) | {loop['cnd']}
+        inner = [q for q in starts if q.n is not None and q.f is f and q.n['i'] in body]
+        starts = inner or [q for q in starts if q.n is None or q.n['i'] not in cset]
+        if len(starts) > 1:
+            starts = [q for q in starts if all(o is q or o.id in g.reachable_from([q]) for o in starts)][:1] or starts
+    return starts[0] if len(starts) == 1 else None
+
+
+def stale_across_iterations(g, f, loop, var_id):
+    """Mentions of local `var_id` inside the body of `loop` that can be reached from the start of an iteration without passing a
+    (re)initialisation of it inside the body: a declaration that is not static / thread_local, or a plain assignment.  Such a
+    mention sees what the previous iteration left behind.  Returns (list of points, None) or (None, reason)."""
+    from ..expr import defs_in_node
+    start = body_entry(g, f, loop)
+    if start is None:
+        return None, 'iteration start not found'
+    body = set(f.subtree(loop['body']))
+    mentions = [p for p in g.points if p.f is f and p.n is not None and p.n['i'] in body and p.n['k'] == 'ref' and p.n.get('id') == var_id]
+    strong = [p for p in g.points if p.f is f and p.n is not None and p.n['i'] in body and
+              any(v == var_id and st and not (p.n['k'] == 'binop' and p.n['op'] != '=') for (v, st, _x) in defs_in_node(f, p.n)) and
+              not (p.n['k'] == 'declstmt' and any(dd['id'] == var_id and (dd.get('static') or dd.get('tls')) for dd in p.n['decls']))]
+    lhs_of_def = set()
+    for p in strong:
+        if p.n['k'] == 'binop':
+            lhs_of_def |= set(f.subtree(p.n['lhs'])) | {p.n['lhs']}
+    return [m for m in mentions if m.n['i'] not in lhs_of_def and not g.must_pass(m, strong, src=start)], None
